@@ -142,6 +142,22 @@ def gen_cases(rng, tier):
                 d = dict(d, order=list(reversed(d["order"])))
             cases.append({"kind": "supplied", "lines": lines, "checklines": rng.choice([0, 1, 10]), "supplied": d,
                           "force_gff": False, "consistent": None, "gtf_keys": False})
+    # (e) attribute columns outside the style grammar (separators inside values, quoting with '=', commas with blanks,
+    #     valueless keys ...): the per-line model and the vote are the oracle
+    RAW = ['note "alpha;beta"; gene_id "g1"; transcript_id "t1";', 'gene_id "g1"; note "a; b"; transcript_id "t1";',
+           'ID="g1";Alias="a,b,c"', 'ID=x;Note=binds DNA, RNA', 'ID=x ; Name=y', 'ID=x;Name=y;', 'Name=N;Alias=a,,b,;ID=y',
+           'gene_id "locus=7"; transcript_id "locus=7.t1";', 'ID=a;flag;Name=b', 'ID=a;;Name=b', 'a=b=c;ID=q', 'ID', '', '.',
+           'gene_id "g"; tag "a"; tag "b"; flag "";', 'Parent=p1,p2;ID=c', 'Parent=p1;Parent=p2;ID=c', 'ID=%41%3B;Name=n']
+    for r0 in RAW:
+        for n in (1, 3):
+            cases.append({"kind": "raw", "lines": [{"st": None, "attrs": [], "col": r0} for _ in range(n)], "checklines": 10,
+                          "supplied": None, "force_gff": False, "consistent": None, "gtf_keys": False})
+    for rep in range(nq * 10):
+        n = rng.choice([1, 2, 3, 5])
+        pool = rng.sample(RAW, rng.choice([1, 2, 3]))
+        lines = [{"st": None, "attrs": [], "col": rng.choice(pool)} for _ in range(n)]
+        cases.append({"kind": "raw", "lines": lines, "checklines": rng.choice([0, 1, 10]), "supplied": None,
+                      "force_gff": False, "consistent": None, "gtf_keys": False})
     return cases
 
 
@@ -224,6 +240,24 @@ def run_impl(c):
             db.conn.close()
             return r
         out["reopen"] = attempt(reopen)
+
+        def updated():
+            # the dialect a database reports is the one of the input it was created from - also after an update() with
+            # differently written lines and a reopen
+            db = gffutils.FeatureDB(dbfn)
+            other = ('chr9\tsrc\tregion\t1\t5\t.\t+\t.\tzz_key "1" ; zz_other "2" ;' if db.dialect["fmt"] == "gff3"
+                     else 'chr9\tsrc\tregion\t1\t5\t.\t+\t.\tzz_key=1;zz_other=2')
+            db.update(other + "\n", from_string=True, make_backup=False, merge_strategy="create_unique", id_spec="no_such_key_zz",
+                      verbose=False)
+            db.conn.close()
+            db = gffutils.FeatureDB(dbfn)
+            r = db.dialect
+            db.conn.close()
+            return r
+        if out["reopen"][0] == "ok":
+            out["updated"] = attempt(updated)
+        else:
+            out["updated"] = out["reopen"]
     finally:
         shutil.rmtree(d, ignore_errors=True)
     return out
@@ -231,9 +265,9 @@ def run_impl(c):
 
 def coq_case(c, o):
     rd = lambda r: L.res(r, G.coq_dialect)
-    obs = "(mkC09 %s %s %s %s %s %s %s %s)" % (L.lst([G.coq_dialect(x) for x in o["line_dialects"]], "dialect"), rd(o["iter"]),
-                                               rd(o["iter_feats"]), rd(o["db"]), rd(o["reopen"]), rd(o["first"]), L.z(o["derived"]),
-                                               L.res(o["meta"], L.s))
+    obs = "(mkC09 %s %s %s %s %s %s %s %s %s)" % (L.lst([G.coq_dialect(x) for x in o["line_dialects"]], "dialect"), rd(o["iter"]),
+                                                  rd(o["iter_feats"]), rd(o["db"]), rd(o["reopen"]), rd(o["first"]), L.z(o["derived"]),
+                                                  L.res(o["meta"], L.s), rd(o.get("updated", o["reopen"])))
     return "CVote %s %d%%nat %s %s %s %s %s" % (
         L.ss([l["col"] for l in c["lines"]]), c["checklines"], L.opt(c["supplied"], G.coq_dialect, "dialect"),
         L.b(c["force_gff"]), L.opt(c["consistent"], G.coq_style, "style"), L.b(c["gtf_keys"]), obs)
